@@ -2,7 +2,8 @@
 from reg._common import COMMON_ASSUME
 
 ENTRY = {
-    'lean_files': ['Tables/C06.lean', 'Props/C06.lean', 'Props/C06WalkBook.lean', 'Props/C06Walk.lean'],
+    'extractors': ['translate_py.py'],
+    'lean_files': ['Tables/SrcPyClassify.lean', 'Tables/C06.lean', 'Props/C06.lean', 'Props/C06WalkBook.lean', 'Props/C06Walk.lean'],
     'lemma_files': ['Model/Walk.lean', 'Lemmas/Walk.lean', 'Lemmas/WalkBook.lean', 'Model/Triangle.lean', 'Model/Geometric.lean', 'Model/GeometricInst.lean', 'Model/Helpers.lean', 'Lemmas/Classify.lean', 'Lemmas/Bridge.lean', 'Model/Basic.lean', 'Model/Curve.lean', 'Model/Classify.lean'],
     'script': 'props/c06.py',
     'scripts': ['props/c06.py', 'props/c06w.py'],
@@ -16,7 +17,13 @@ ENTRY = {
             'degree 1..4 (dyadic nets: affine lattice images + perturbations, incl. nested and box-disjoint pairs), function level, '
             'Triangle.intersect GEOMETRIC and ALGEBRAIC (NotImplementedError = refusal): certified area enclosure (adaptive exact '
             'chord-polygon clipping + exact Green slivers), winding-number membership of dyadic sample points, structural clauses, '
-            '_make_intersection edges = exact sub-curves; (c) in the pure configuration every call of handle_ends / '
+            '_make_intersection edges = exact sub-curves; (b2) pairs in which no edge meets an edge and the control nets mislead '
+            '(harness/c06nest.py: a curved triangle of degree 2..4 strictly inside a triangle of degree 1..4 whose near side passes between '
+            'a bulging edge and its control points - control points outside / on / inside the other control-net bounding box, every side of '
+            'the box, straight, tilted, right-angled, concave and convex near edges; small triangles under a bulging edge or in the notch of a '
+            'concave edge: disjoint with nested boxes), run first on a CPU-time budget, function level, Triangle.intersect GEOMETRIC and '
+            'ALGEBRAIC, both argument orders, judged by the exact common area (point enclosure): the inner triangle itself / the empty list; '
+            '(c) in the pure configuration every call of handle_ends / '
             'classify_intersection / classify_coincident / should_use / to_front / ends_to_curve / verify_edge_segments / bbox_intersect '
             'made during the degree-1 lattice runs is recorded and replayed through the Lean model (discrete results identical), plus '
             'an exhaustive tie lattice of corner configurations for classify_intersection; non-trivial = bounding boxes overlap; '
